@@ -52,6 +52,8 @@ func DrawFamily(t *rapid.T, f string) GCase {
 		name = "separators/" + n
 	case "samehandle":
 		s = spec.SameHandle(t)
+	case "bigauto":
+		s = spec.BigAuto(t)
 	case "prec":
 		if rapid.Bool().Draw(t, "precbase") {
 			s = spec.Productive(t, smallCfg)
